@@ -1,4 +1,5 @@
 import FxVerif.Gen.C09
+import FxVerif.Gen.C10
 /-!
 # C10 model — the precompile dispatcher (`contract.go:Run` of both precompiles) as a pure function
 
@@ -7,6 +8,15 @@ import FxVerif.Gen.C09
 method's effect on an abstract portfolio world.  Where the account whose assets move comes from (`contract.Caller()`,
 an argument, `evm.Origin`) is NOT hard-wired: it is read from the regenerated method table (`Gen.C09.methods`, column
 `payers`), so the theorems are about what the source says now.
+
+Round 2 adds `runGen`, which is assembled only from regenerated code:
+* the dispatcher's guard/dispatch ORDER is the step list of `Gen.C09.dispatchers` (`runSteps`);
+* the governance check is the statement-level translation of `CheckContractAddressIsDisabled` (`Gen.C10.disabledProg`,
+  interpreted by `checkDisabledGen`: prelude, range loop with `continue` / `break` / `return`, epilogue);
+* `approveShares` / `transferShares` / `transferFromShares` are the ordered ctx-receiving calls of their
+  ExecuteNativeAction closures (`Gen.C10.closures`) with `decrementAllowance` interpreted statement by statement
+  (`Gen.C10.decrementProg`: GetAllowance, comparisons, Sub, SetAllowance, returns);
+and a history semantics (`applyOp`, `runH`) over lists of calls by arbitrary callers, call kinds and switch settings.
 -/
 namespace FxVerif.Model.C10
 open FxVerif.Gen.C09
@@ -99,11 +109,14 @@ structure Env where
   caller : Addr
   origin : Addr
 
-inductive Err | unknownMethod | writeProtection | disabled | method
+inductive Err | unknownMethod | writeProtection | disabled | method | allowance | shares | unknownStep
   deriving DecidableEq, Repr
 
+/-- `handlerTransferShares`: the delegation of `p` must cover `s`; a transfer to oneself changes nothing (it returns
+before the reward withdrawals); otherwise both sides' rewards are paid out and `s` shares move -/
 def moveShares (w : World) (p to : Addr) (s : Nat) : Except Err World :=
-  if w.shares p < s then .error .method else
+  if w.shares p < s then .error .shares else
+  if p = to then .ok w else
   let w1 := claim (claim w p) to
   .ok { w1 with shares := upd (upd w1.shares p (w1.shares p - s)) to (w1.shares to + s) }
 
@@ -119,12 +132,12 @@ def effect (i : MInfo) (p c : Addr) (call : Call) (w : World) : Except Err World
     let w1 := claim w p
     .ok { w1 with shares := upd w1.shares p (w1.shares p - amt), unbonding := upd w1.unbonding p (w1.unbonding p + amt) }
   | .redelegate amt => if w.shares p < amt then .error .method else .ok (claim w p)
-  | .withdraw => .ok (claim w p)
+  | .withdraw => if w.shares p = 0 then .error .method else .ok (claim w p)   -- no delegation: nothing to withdraw
   | .approve sp s => .ok { w with allow := upd2 w.allow p sp s }
   | .transferShares to s => moveShares w p to s
   | .transferFromShares _ to s =>
     if i.guarded then
-      if w.allow p c < s then .error .method else
+      if w.allow p c < s then .error .allowance else
       moveShares { w with allow := upd2 w.allow p c (w.allow p c - s) } p to s
     else moveShares w p to s
   | .crossChain amt fee _ =>
@@ -147,6 +160,8 @@ def effect (i : MInfo) (p c : Addr) (call : Call) (w : World) : Except Err World
 
 def lowerChar (c : Char) : Char := if 'A' ≤ c ∧ c ≤ 'Z' then Char.ofNat (c.toNat + 32) else c
 def lower (s : List Char) : List Char := s.map lowerChar
+def upperChar (c : Char) : Char := if 'a' ≤ c ∧ c ≤ 'z' then Char.ofNat (c.toNat - 32) else c
+def upper (s : List Char) : List Char := s.map upperChar
 
 /-- `CheckContractAddressIsDisabled`, parametrised by the regenerated shape of the comparison -/
 def isDisabled (chk : DisabledCheck) (dis : List (List Char)) (addr mid : List Char) : Bool :=
@@ -184,5 +199,375 @@ def readonlyFlag (k : Kind) : Option Bool :=
   | some (_, "true") => some true
   | some (_, "false") => some false
   | _ => none
+
+/-! ## interpreter of the regenerated `CheckContractAddressIsDisabled` (`Gen.C10.disabledProg`) -/
+section Dis
+open FxVerif.Gen.C10
+
+structure DEnv where
+  s : Nat → List Char
+  b : Nat → Bool
+
+def updS (f : Nat → List Char) (k : Nat) (v : List Char) : Nat → List Char := fun x => if x = k then v else f x
+def updB (f : Nat → Bool) (k : Nat) (v : Bool) : Nat → Bool := fun x => if x = k then v else f x
+
+/-- Go `strings.Cut`: split around the first occurrence of `sep` -/
+def cutAt (sep : List Char) : List Char → Option (List Char × List Char)
+  | [] => if sep.isEmpty then some ([], []) else none
+  | c :: r =>
+    if sep.isPrefixOf (c :: r) then some ([], (c :: r).drop sep.length)
+    else (cutAt sep r).map (fun p => (c :: p.1, p.2))
+
+def evalSE (addr mid : List Char) (env : DEnv) : SE → List Char
+  | .var x => env.s x
+  | .lit s => s
+  | .lower e => lower (evalSE addr mid env e)
+  | .upper e => upper (evalSE addr mid env e)
+  | .cat a b => evalSE addr mid env a ++ evalSE addr mid env b
+  | .addrString => addr
+  | .hexMethodId => mid
+  | .unknown _ => []
+
+def evalBE (nDis : Nat) (addr mid : List Char) (env : DEnv) : BE → Bool
+  | .tt => true
+  | .eq a b => evalSE addr mid env a == evalSE addr mid env b
+  | .bvar x => env.b x
+  | .not c => !evalBE nDis addr mid env c
+  | .and a b => evalBE nDis addr mid env a && evalBE nDis addr mid env b
+  | .or a b => evalBE nDis addr mid env a || evalBE nDis addr mid env b
+  | .lenZero => nDis == 0
+  | .hasPrefix a b => (evalSE addr mid env b).isPrefixOf (evalSE addr mid env a)
+  | .unknown _ => false
+
+inductive DOut
+  | fall (env : DEnv) | ret (disabled : Bool) | cont (env : DEnv) | brk (env : DEnv) | unknown
+
+mutual
+def execS (nDis : Nat) (addr mid : List Char) : St → DEnv → DOut
+  | .assign x e, env => .fall { env with s := updS env.s x (evalSE addr mid env e) }
+  | .cut b a f e sep, env =>
+    let v := evalSE addr mid env e
+    match cutAt (evalSE addr mid env sep) v with
+    | some (p, q) => .fall { s := updS (updS env.s b p) a q, b := updB env.b f true }
+    | none => .fall { s := updS (updS env.s b v) a [], b := updB env.b f false }
+  | .ite c t e, env => if evalBE nDis addr mid env c then execL nDis addr mid t env else execL nDis addr mid e env
+  | .retErr, _ => .ret true
+  | .retNil, _ => .ret false
+  | .cont, env => .cont env
+  | .brk, env => .brk env
+  | .unknown _, _ => .unknown
+def execL (nDis : Nat) (addr mid : List Char) : List St → DEnv → DOut
+  | [], env => .fall env
+  | s :: r, env =>
+    match execS nDis addr mid s env with
+    | .fall env' => execL nDis addr mid r env'
+    | o => o
+end
+
+/-- the `for _, v := range disabledPrecompiles { body }` loop -/
+def loopDis (nDis : Nat) (addr mid : List Char) (body : List St) (v : Nat) : List (List Char) → DEnv → DOut
+  | [], env => .fall env
+  | d :: r, env =>
+    match execL nDis addr mid body { env with s := updS env.s v d } with
+    | .ret b => .ret b
+    | .brk env' => .fall env'
+    | .cont env' => loopDis nDis addr mid body v r env'
+    | .fall env' => loopDis nDis addr mid body v r env'
+    | .unknown => .unknown
+
+def denv0 : DEnv := ⟨fun _ => [], fun _ => false⟩
+
+/-- `some true` = an error is returned (disabled), `some false` = nil, `none` = the translator met something it does not know -/
+def checkDisabledGen (p : DisProg) (dis : List (List Char)) (addr mid : List Char) : Option Bool :=
+  if p.loops ≠ 1 then none else
+  match execL dis.length addr mid p.pre denv0 with
+  | .ret b => some b
+  | .fall env =>
+    match loopDis dis.length addr mid p.body p.loopVar dis env with
+    | .ret b => some b
+    | .fall env' =>
+      match execL dis.length addr mid p.post env' with
+      | .ret b => some b
+      | _ => none
+    | _ => none
+  | _ => none
+
+end Dis
+
+/-! ## interpreter of the regenerated `decrementAllowance` (`Gen.C10.decrementProg`) on the allowance table of a world -/
+section Dec
+open FxVerif.Gen.C10
+
+structure AEnv where
+  v : Nat → Int
+  addr : String → Option Addr
+  w : World
+
+def updI (f : Nat → Int) (k : Nat) (v : Int) : Nat → Int := fun x => if x = k then v else f x
+
+def evalIE (env : AEnv) : IE → Int
+  | .var x => env.v x
+  | .const n => n
+  | .sub a b => evalIE env a - evalIE env b
+  | .add a b => evalIE env a + evalIE env b
+  | .unknown _ => 0
+
+/-- `big.Int.Cmp` -/
+def cmpInt (a b : Int) : Int := if a < b then -1 else if a = b then 0 else 1
+
+def cmpHolds (op : CmpOp) (x k : Int) : Bool :=
+  match op with
+  | .lt => x < k | .le => x ≤ k | .eq => x == k | .ne => x != k | .gt => k < x | .ge => k ≤ x
+
+def evalIC (env : AEnv) : IC → Bool
+  | .cmp a b op k => cmpHolds op (cmpInt (evalIE env a) (evalIE env b)) k
+  | .not c => !evalIC env c
+  | .and a b => evalIC env a && evalIC env b
+  | .or a b => evalIC env a || evalIC env b
+  | .unknown _ => false
+
+def ieKnown : IE → Bool
+  | .unknown _ => false
+  | .sub a b | .add a b => ieKnown a && ieKnown b
+  | _ => true
+
+def icKnown : IC → Bool
+  | .unknown _ => false
+  | .cmp a b _ _ => ieKnown a && ieKnown b
+  | .not c => icKnown c
+  | .and a b | .or a b => icKnown a && icKnown b
+
+inductive AOut
+  | fall (env : AEnv) | ret (err : Bool) (env : AEnv) | unknown
+
+mutual
+def execA : ASt → AEnv → AOut
+  | .getAllow x [_, o, s], env =>
+    match env.addr o, env.addr s with
+    | some o, some s => .fall { env with v := updI env.v x (env.w.allow o s) }
+    | _, _ => .unknown
+  | .getAllow _ _, _ => .unknown
+  | .setAllow [_, o, s] e, env =>
+    match env.addr o, env.addr s with
+    | some o, some s =>
+      if ieKnown e then .fall { env with w := { env.w with allow := upd2 env.w.allow o s (evalIE env e).natAbs } } else .unknown
+    | _, _ => .unknown
+  | .setAllow _ _, _ => .unknown
+  | .assign x e, env => if ieKnown e then .fall { env with v := updI env.v x (evalIE env e) } else .unknown
+  | .ite c t e, env =>
+    if !icKnown c then .unknown
+    else if evalIC env c then execAL t env else execAL e env
+  | .retErr, env => .ret true env
+  | .retNil, env => .ret false env
+  | .unknown _, _ => .unknown
+def execAL : List ASt → AEnv → AOut
+  | [], env => .fall env
+  | s :: r, env =>
+    match execA s env with
+    | .fall env' => execAL r env'
+    | o => o
+end
+
+/-- `decrementAllowance(ctx, valAddr, owner, spender, decrease)` called with the 3rd / 4th / 5th argument := `o` / `s` / `d`
+(parameters are bound by POSITION; the keeper keys inside the body refer to them by NAME) -/
+def runDecW (p : DecProg) (o s : Addr) (d : Nat) (w : World) : Except Err World :=
+  let addr : String → Option Addr := fun n =>
+    if p.params[2]? = some n then some o else if p.params[3]? = some n then some s else none
+  match execAL p.body { v := fun i => if i = 4 then (d : Int) else 0, addr, w } with
+  | .ret false env => .ok env.w
+  | .ret true _ => .error .allowance
+  | .fall env => .ok env.w
+  | .unknown => .error .unknownStep
+
+end Dec
+
+/-! ## the ExecuteNativeAction closures of the share methods, call by call in source order -/
+section Clo
+open FxVerif.Gen.C10
+
+def Call.addrArg (call : Call) (env : Env) (prov : String) : Option Addr :=
+  if prov == "caller" then some env.caller
+  else if prov == "origin" then some env.origin
+  else match call, prov with
+    | .transferFromShares f _ _, "arg:From" => some f
+    | .transferFromShares _ t _, "arg:To" => some t
+    | .transferShares t _, "arg:To" => some t
+    | .approve sp _, "arg:Spender" => some sp
+    | _, _ => none
+
+def Call.amtArg (call : Call) (prov : String) : Option Nat :=
+  match call, prov with
+  | .transferFromShares _ _ s, "arg:Shares" => some s
+  | .transferShares _ s, "arg:Shares" => some s
+  | .approve _ s, "arg:Shares" => some s
+  | _, _ => none
+
+/-- how the closure treats the callee's error: `checked` / `returned` propagate it, anything else drops it -/
+def applyErr (kind : String) (w : World) (r : Except Err World) : Except Err World :=
+  if kind == "checked" || kind == "returned" then r
+  else match r with
+    | .ok w' => .ok w'
+    | .error .unknownStep => .error .unknownStep
+    | .error _ => .ok w
+
+def stepClosure (env : Env) (call : Call) (st : Step) (w : World) : Except Err World :=
+  if st.callee == "SetAllowance" then
+    match st.args with
+    | [_, _, o, s, a] =>
+      match call.addrArg env o, call.addrArg env s, call.amtArg a with
+      | some o, some s, some a => .ok { w with allow := upd2 w.allow o s a }
+      | _, _, _ => .error .unknownStep
+    | _ => .error .unknownStep
+  else if st.callee == "decrementAllowance" then
+    match st.args with
+    | [_, _, o, s, a] =>
+      match call.addrArg env o, call.addrArg env s, call.amtArg a with
+      | some o, some s, some a => applyErr st.err w (runDecW decrementProg o s a w)
+      | _, _, _ => .error .unknownStep
+    | _ => .error .unknownStep
+  else if st.callee == "handlerTransferShares" then
+    match st.args with
+    | [_, _, _, f, t, a] =>
+      match call.addrArg env f, call.addrArg env t, call.amtArg a with
+      | some f, some t, some a => applyErr st.err w (moveShares w f t a)
+      | _, _, _ => .error .unknownStep
+    | _ => .error .unknownStep
+  else .error .unknownStep
+
+def runClosure (env : Env) (call : Call) : List Step → World → Except Err World
+  | [], w => .ok w
+  | st :: r, w =>
+    match stepClosure env call st w with
+    | .ok w' => runClosure env call r w'
+    | .error e => .error e
+
+def isShareCall : Call → Bool
+  | .approve _ _ | .transferShares _ _ | .transferFromShares _ _ _ => true
+  | _ => false
+
+/-- what the dispatcher model needs of a row of the regenerated method table -/
+structure Row where
+  contract : String
+  info : MInfo
+  deriving DecidableEq, Repr
+
+def rows : List Row := methods.map (fun m => ⟨m.contract, infoOf m⟩)
+
+/-- the method body: share methods from their regenerated closures, the others from the payer column -/
+def effectGen (r : Row) (env : Env) (call : Call) (w : World) : Except Err World :=
+  if isShareCall call then
+    match closures.find? (fun c => c.abiName == call.name && c.contract == r.contract) with
+    | some c => if c.single then runClosure env call c.steps w else .error .unknownStep
+    | none => .error .unknownStep
+  else effect r.info (resolve r.info.payer env call) env.caller call w
+
+end Clo
+
+/-! ## the dispatcher assembled from the regenerated step order -/
+
+structure Res where
+  out : Except Err World
+  executed : Bool    -- did `method.Run` start?
+
+def runSteps (ro writer : Bool) (disabled : Option Bool) (eff : World → Except Err World) :
+    List String → World → Bool → Res
+  | [], w, ex => ⟨.ok w, ex⟩
+  | s :: r, w, ex =>
+    if s == "readonly-guard" then
+      if ro && writer then ⟨.error .writeProtection, ex⟩ else runSteps ro writer disabled eff r w ex
+    else if s == "disabled-check" then
+      match disabled with
+      | some true => ⟨.error .disabled, ex⟩
+      | some false => runSteps ro writer disabled eff r w ex
+      | none => ⟨.error .unknownStep, ex⟩
+    else if s == "run" then
+      match eff w with
+      | .ok w' => runSteps ro writer disabled eff r w' true
+      | .error e => ⟨.error e, true⟩
+    else ⟨.error .unknownStep, ex⟩
+
+def runGen (dis : List (List Char)) (ro : Bool) (addr mid : List Char) (env : Env) (call : Call) (w : World) : Res :=
+  match rows.find? (fun r => r.info.name == call.name) with
+  | none => ⟨.error .unknownMethod, false⟩
+  | some r =>
+    match dispatchers.find? (fun d => d.contract == r.contract) with
+    | none => ⟨.error .unknownMethod, false⟩
+    | some d =>
+      runSteps ro (!r.info.readonly) (checkDisabledGen FxVerif.Gen.C10.disabledProg dis addr mid) (effectGen r env call) d.steps w false
+
+/-! ## the small abstract specification `runGen` is proved to refine (Proofs/C10.lean: `runGen_refines`) -/
+
+def specDisabled (dis : List (List Char)) (addr mid : List Char) : Bool :=
+  dis.any (fun d => lower d == lower addr || lower d == lower addr ++ '/' :: mid)
+
+def Call.isView : Call → Bool
+  | .view _ => true
+  | _ => false
+
+/-- who a call names besides its caller -/
+def Call.parties : Call → List Addr
+  | .approve _ _ => []                      -- the spender gains a right, none of its assets is touched
+  | .transferShares t _ => [t]
+  | .transferFromShares f t _ => [f, t]
+  | _ => []
+
+/-- every state-changing method acts on the direct caller's assets; `transferFromShares` acts on `from` after the
+allowance `from → caller` has been checked and reduced -/
+def specEffect (c : Addr) (call : Call) (w : World) : Except Err World :=
+  match call with
+  | .transferFromShares f _ _ => effect ⟨"transferFromShares", false, .argFrom, true⟩ f c call w
+  | _ => effect ⟨call.name, false, .caller, false⟩ c c call w
+
+def specRun (dis : List (List Char)) (ro : Bool) (addr mid : List Char) (c : Addr) (call : Call) (w : World) : Res :=
+  if ro then ⟨.error .writeProtection, false⟩
+  else if specDisabled dis addr mid then ⟨.error .disabled, false⟩
+  else ⟨specEffect c call w, true⟩
+
+/-! ## histories: any list of calls by any callers, call kinds and governance settings -/
+
+structure HOp where
+  kind : Kind
+  dis : List (List Char)
+  addr : List Char
+  mid : List Char
+  env : Env
+  call : Call
+
+/-- what the direct call returns (`none`: the fork source gave no readonly literal for this call kind) -/
+def outcome (w : World) (o : HOp) : Option (Except Err World) :=
+  (readonlyFlag o.kind).map (fun ro => (runGen o.dis ro o.addr o.mid o.env o.call w).out)
+
+def succeeded (w : World) (o : HOp) : Bool :=
+  match outcome w o with
+  | some (.ok _) => true
+  | _ => false
+
+/-- a failed precompile call leaves the state as it was (C09: the EVM reverts the frame) -/
+def applyOp (w : World) (o : HOp) : World :=
+  match outcome w o with
+  | some (.ok w') => w'
+  | _ => w
+
+def runH (ops : List HOp) (w : World) : World := ops.foldl applyOp w
+
+/-- allowance of `a` to `c` that a successful `transferFromShares(a, _, s)` issued by `c` consumes in this step -/
+def spentBy (a c : Addr) (w : World) (o : HOp) : Nat :=
+  match o.call with
+  | .transferFromShares f _ s => if f = a ∧ o.env.caller = c ∧ succeeded w o = true then s else 0
+  | _ => 0
+
+def totalSpent (a c : Addr) : List HOp → World → Nat
+  | [], _ => 0
+  | o :: r, w => spentBy a c w o + totalSpent a c r (applyOp w o)
+
+/-- shares a successful `transferFromShares(a, _, s)` of anybody may take from `a` in this step -/
+def movedFrom (a : Addr) (w : World) (o : HOp) : Nat :=
+  match o.call with
+  | .transferFromShares f _ s => if f = a ∧ succeeded w o = true then s else 0
+  | _ => 0
+
+def totalMoved (a : Addr) : List HOp → World → Nat
+  | [], _ => 0
+  | o :: r, w => movedFrom a w o + totalMoved a r (applyOp w o)
 
 end FxVerif.Model.C10
